@@ -151,7 +151,8 @@ PROPS = {
         "lean_modules": ["SqlizeModel.Props.C05"],
         "theorems": ["Sqlize.C05.split_invariant", "Sqlize.C05.calls_invariant", "Sqlize.C05.rejected_unchanged", "Sqlize.C05.parse_before_edit",
                      "Sqlize.C05.load_keeps_inv", "Sqlize.C05.rename_onto_existing_breaks", "Sqlize.readScript_inv", "Sqlize.fromString_inv", "Sqlize.C05.names_and_positions", "Sqlize.C05.names_positions_types", "Sqlize.C05.names_positions_types_options", "Sqlize.ReaderMysql.step_rel", "Sqlize.ReaderMysql.fidelity",
-                     "Sqlize.C05.indexes_and_foreign_keys", "Sqlize.ReaderMysql.step_elems", "Sqlize.Table.removeColumn_raw"],
+                     "Sqlize.C05.indexes_and_foreign_keys", "Sqlize.ReaderMysql.step_elems", "Sqlize.Table.removeColumn_raw",
+                     "Sqlize.C05.primary_key_table_level", "Sqlize.ReaderMysql.step_pk", "Sqlize.pkOf_strip"],
         "suites": [{"name": "script"}],
         "corr_points": ["load", "state", "dump"],
         "rule": SCRIPT_RULE,
@@ -160,7 +161,8 @@ PROPS = {
         "explanation": "Proved for all inputs: the MySQL reader model simulates the reference engine on tables, column names and column positions "
                        "for scripts of any length (Sqlize.C05.names_and_positions: one commuting square per statement kind; vocabulary without RENAME COLUMN / RENAME INDEX), "
                        "on column types and option kinds/values (names_positions_types_options), and on indexes and foreign keys, every record live "
-                       "(Sqlize.C05.indexes_and_foreign_keys; the primary key apart: two representations, recorded finding); "
+                       "(Sqlize.C05.indexes_and_foreign_keys), and on primary keys declared at table level (primary_key_table_level; an inline key is kept as a "
+                       "column option: two representations, recorded finding); "
                        "every load (3 reader models, any split into calls) keeps slices and position maps consistent "
                        "(Sqlize.C05.load_keeps_inv, side condition: renames onto fresh names); split invariance of the reader model (state incl. cursor and pending position) and the rejection "
                        "clause (by definition + regenerated fact that every Parser* function parses before it edits). The fidelity clause "
